@@ -173,6 +173,12 @@ func Mutate(t *rapid.T, doc map[string]any) (kind string, depth int, ok bool) {
 		}
 		a := names[rapid.IntRange(0, len(names)-1).Draw(t, "selfrefdef")]
 		b := names[rapid.IntRange(0, len(names)-1).Draw(t, "selfrefdef2")]
+		if rapid.IntRange(0, 2).Draw(t, "escapedselfref") == 0 {
+			// a definition whose name needs JSON-pointer escaping, inheriting from itself
+			nm := rapid.SampledFrom([]string{"a/b", "a~b", "x/y/z", "~"}).Draw(t, "escapedname")
+			defs[nm] = map[string]any{"allOf": []any{map[string]any{"$ref": "#/definitions/" + escapePtr(nm)}, Clone(defs[a])}}
+			return kind, 1, true
+		}
 		if rapid.Bool().Draw(t, "selfrefviaallof") {
 			// the reference sits inside allOf: a definition inheriting from itself (or from a definition inheriting back)
 			defs[a] = map[string]any{"allOf": []any{map[string]any{"$ref": "#/definitions/" + escapePtr(b)}, defs[a]}}
